@@ -394,3 +394,61 @@ def observable(s, inner=True):
                                         if ident in proc.info_map), key=lambda x: (x['group'], x['name']))
                          for ident, st in ctx.instances.items()}
     return _json.dumps(_scrub(snap), sort_keys=True, default=str)
+
+
+# ---------------------------------------------------------------------------------------------
+# C13: isolation is permanent, reciprocal and airtight (step monitor)
+# ---------------------------------------------------------------------------------------------
+class IsolationMonitor:
+    """(a) permanence: once o holds p ISOLATED, o's status of p never changes again (until o restarts);
+    (b) airtightness: o sends nothing to p afterwards (no XML-RPC leaves o for p);
+    (c) reciprocity: o never admits (CHECKED) a peer p that has held o ISOLATED since before the beginning of
+        o's current CHECKING period: every handshake of that period is answered NOT_AUTHORIZED;
+    (d) a peer whose strategies differ is never admitted."""
+
+    def __init__(self, n, mismatch=()):
+        self.isolated_at = {}     # (o, p) -> step at which o marked p ISOLATED
+        self.checking_at = {}     # (o, p) -> step at which o's current CHECKING period of p began
+        self.mismatch = {tuple(sorted(x)) for x in mismatch}   # pairs whose options differ
+
+    def key(self, c):
+        # only the order of the recorded steps matters
+        items = sorted(self.isolated_at.items(), key=lambda kv: kv[1]) + [('|', 0)] + \
+            sorted(self.checking_at.items(), key=lambda kv: kv[1])
+        order = sorted({v for _, v in list(self.isolated_at.items()) + list(self.checking_at.items())})
+        rank = {v: k for k, v in enumerate(order)}
+        return ('iso', tuple(sorted((k, rank[v]) for k, v in self.isolated_at.items())),
+                tuple(sorted((k, rank[v]) for k, v in self.checking_at.items())))
+
+    def on_restart(self, idx):
+        for d in (self.isolated_at, self.checking_at):
+            for k in [k for k in d if k[0] == idx]:
+                del d[k]
+
+    def on_instance_state(self, w, o, peer_ident, old, new):
+        p = w.idx_of[peer_ident]
+        if (o, p) in self.isolated_at and new != 'ISOLATED':
+            w.violations.append({'clause': 'isolation-not-permanent', 'signature': f'C13:left-ISOLATED:{new}',
+                                 'observer': o, 'peer': p})
+        if new == 'ISOLATED':
+            self.isolated_at.setdefault((o, p), w.step)
+        if new == 'CHECKING':
+            self.checking_at[(o, p)] = w.step
+        if new == 'CHECKED' and o != p:
+            since = self.isolated_at.get((p, o))
+            began = self.checking_at.get((o, p))
+            if since is not None and began is not None and since < began and w.sups[p].alive:
+                w.violations.append({'clause': 'peer-admitted-although-it-isolated-us',
+                                     'signature': 'C13:admitted-despite-isolation', 'observer': o, 'peer': p,
+                                     'isolated_at_step': since, 'checking_since_step': began, 'step': w.step})
+            if tuple(sorted((o, p))) in self.mismatch:
+                w.violations.append({'clause': 'peer-with-different-strategies-admitted',
+                                     'signature': 'C13:admitted-despite-mismatch', 'observer': o, 'peer': p})
+
+    def on_rpc(self, w, rec):
+        o, p = rec['src'], rec['dst']
+        if rec['cause'] and rec['cause'][0] == 'wire':
+            return      # a request that was already on the wire when the peer was isolated
+        if o != p and (o, p) in self.isolated_at and self.isolated_at[(o, p)] < w.step:
+            w.violations.append({'clause': 'traffic-towards-isolated-peer', 'signature': f'C13:traffic-to-isolated:{rec["name"]}',
+                                 'observer': o, 'peer': p})
